@@ -8,7 +8,7 @@ from sa.cfg import dominators, reachable, reaches, specialize, test_atoms
 from sa.db import AnalysisError, FuncInfo, bind_args, dotted, src, walk_local
 from sa.flow import backward_slice, defs_reaching, reaching_defs
 from sa.model import contains, enclosing, execute_impl_funcs, is_user_func_call, superstep_funcs
-from sa.variants import Variant, replace_once, sub_first, sub_once
+from sa.variants import Variant, chain, replace_once, sub_first, sub_once
 
 from .c04 import check_end_never_cleared
 from .common import call_names
@@ -42,6 +42,7 @@ def run(ctx) -> None:
     rep.rule("C03.R4", "stale clear precedes activation; END terminal; END/None activate nothing", floor=3)
     rep.rule("C03.R5", "supersteps receive the scheduler's ready list", floor=2)
     rep.rule("C03.R6", "default-open early start only for gates that never executed", floor=1)
+    rep.rule("C03.R7", "the controlling-gate relation is derived from the gates' declared targets (the relation the gate-decides-first filter uses), for every gate", floor=3)
 
     # ---- R1 ---------------------------------------------------------------------
     n_w = 0
@@ -250,6 +251,9 @@ def run(ctx) -> None:
     ok = bool(pn and pd) and not bad and bool(rets_) and all(eq_or_false(r.ast.value) for r in rets_)
     rep.add("C03.R4", f"{act.qname}:name-decision-by-equality", ok, f"{act.module.rel}:{(bad[0].lineno if bad else act.node.lineno)}", "a single-name decision activates exactly the node of that name (membership tests are reachable only for collection decisions)" if ok else "a single-name decision is tested by membership/other than equality: for a str that is substring containment, so a node whose name is contained in the chosen target's name is activated too")
 
+    # ---- R7 ---------------------------------------------------------------------
+    check_controlled_by_from_targets(ctx, "C03.R7")
+
     # ---- R5 ---------------------------------------------------------------------
     sss = set(superstep_funcs(db))
     for impl in execute_impl_funcs(db):
@@ -342,11 +346,47 @@ def check_ready_conjunction(ctx, rule: str) -> None:
     rep.add(rule, f"{f.qname}:conjunction", ok, f.loc(), why)
 
 
+def check_controlled_by_from_targets(ctx, rule: str) -> None:
+    """Activation consults graph.controlled_by; the 'gate decides first' filter consults gate.targets.
+    Both must be the same relation: controlled_by[t] lists every gate whose declared targets contain t."""
+    from sa.pattern import solve
+
+    db, rep = ctx.db, ctx.rep
+    g = db.cls("graph.core.Graph")
+    ccb = g.methods.get("_compute_controlled_by")
+    if ccb is None:
+        raise AnalysisError("Graph._compute_controlled_by vanished")
+    reads_targets = any(isinstance(x, ast.Attribute) and x.attr == "targets" for x in walk_local(ccb.node))
+    reads_graph = [x for x in walk_local(ccb.node) if isinstance(x, ast.Attribute) and x.attr in ("_nx_graph", "edges", "successors", "predecessors", "out_edges", "in_edges")]
+    ok = reads_targets and not reads_graph
+    rep.add(rule, f"{ccb.qname}:source-is-declared-targets", ok, ccb.loc(), "controlled_by is computed from every gate's declared targets" if ok else "controlled_by is not computed from the gates' declared targets (e.g. read back from control edges, which are omitted when another edge already links gate and target): a target then counts as ungated and starts although no gate selected it")
+    envs = solve(["for _T in _N.targets: ...", "_C.setdefault(_T, []).append(_N.name)"], ccb.node) or solve(["for _T in _N.targets: ...", "_C[_T].append(_N.name)"], ccb.node)
+    rep.add(rule, f"{ccb.qname}:target-maps-to-gate-name", bool(envs), ccb.loc(), "each declared target is mapped to the name of the gate that declares it" if envs else "the relation no longer maps each declared target to its gate's name")
+    # every gate kind contributes: the narrowing test is on the gate base class
+    gate = db.cls("nodes.gate.GateNode")
+    narrowed = []
+    for c in walk_local(ccb.node):
+        if isinstance(c, ast.Call) and dotted(c.func) == "isinstance" and len(c.args) == 2:
+            for e in c.args[1].elts if isinstance(c.args[1], ast.Tuple) else [c.args[1]]:
+                r = db.resolve_expr_symbol(e, ccb.module, ccb)
+                if r and r[0] == "class":
+                    narrowed.append(r[1])
+    kinds = {k.qname for k in gate.all_subclasses() if k is not gate}
+    covered = set()
+    for k in gate.all_subclasses():
+        if any(a in narrowed for a in k.mro()):
+            covered.add(k.qname)
+    ok = bool(narrowed) and kinds <= covered
+    rep.add(rule, f"{ccb.qname}:all-gate-kinds", ok, ccb.loc(), "every gate kind contributes its targets" if ok else f"gate kinds {sorted(q.split('.')[-1] for q in kinds - covered)} do not contribute to controlled_by")
+
+
 HP = "src/hypergraph/runners/_shared/helpers.py"
 GE = "src/hypergraph/runners/_shared/gate_execution.py"
 RV = "src/hypergraph/runners/_shared/routing_validation.py"
 SR = "src/hypergraph/runners/sync/runner.py"
 VARIANTS = [
+    Variant("controlled-by-from-control-edges", "src/hypergraph/graph/core.py", replace_once("        for node in self._nodes.values():\n            if isinstance(node, GateNode):\n                for target in node.targets:\n                    if target is not END and target in self._nodes:\n                        controlled_by.setdefault(target, []).append(node.name)", "        for gate_name, target, edge_type in self._nx_graph.edges(data=\"edge_type\"):\n            if edge_type == \"control\":\n                controlled_by.setdefault(target, []).append(gate_name)"), {"C03.R7"}),
+    Variant("controlled-by-route-gates-only", "src/hypergraph/graph/core.py", chain(replace_once("        from hypergraph.nodes.gate import END, GateNode\n\n        controlled_by", "        from hypergraph.nodes.gate import END, RouteNode\n\n        controlled_by"), replace_once("            if isinstance(node, GateNode):\n                for target in node.targets:\n                    if target is not END and target in self._nodes:", "            if isinstance(node, RouteNode):\n                for target in node.targets:\n                    if target is not END and target in self._nodes:")), {"C03.R7"}),
     Variant("superstep-writes-decision", "src/hypergraph/runners/sync/superstep.py", replace_once("        # Record wait_for versions\n", "        if not outputs:\n            new_state.routing_decisions.pop(node.name, None)\n        # Record wait_for versions\n"), {"C03.R1"}),
     Variant("ifelse-truthy", GE, replace_once("    if not isinstance(result, bool):\n        raise TypeError(", "    if result is None:\n        raise TypeError("), {"C03.R2"}),
     Variant("route-store-before-validate", GE, replace_once("    validate_routing_decision(node, decision)\n    state.routing_decisions[node.name] = decision\n", "    state.routing_decisions[node.name] = decision\n    validate_routing_decision(node, decision)\n"), {"C03.R2"}),
